@@ -180,3 +180,24 @@ Example C07_undrained_consumer_is_named :
   length (ql (shs undrained_cfg)) = 1 /\ cnc (shs undrained_cfg) = 0%Z /\ g_under (shs undrained_cfg) = false /\
   g_awake (shs undrained_cfg) = [0].
 Proof. exact undrained_consumer_is_named. Qed.
+
+(* the schedules the theorems quantify over include waits that end with no notification: a spurious wake-up (token
+   2000 + w) and a timed wait that times out while other threads can run (token 1000 + w) *)
+Example C07_spurious_wake_run :
+  let c0 := mkCfg sh0 (start_threads [[AWait]; [AEnqueue 1 11%Z]])
+                  ([0; 0; 0; 0; 0; 2000; 0; 0; 0; 0; 0; 0; 0] ++ repeat 1 12 ++ repeat 0 10) false in
+  map status (ths (run_sched 5 c0)) = [TParked false; TRun] /\
+  map status (ths (run_sched 6 c0)) = [TWoken; TRun] /\
+  map status (ths (run_sched 10 c0)) = [TParked false; TRun] /\
+  stopped_alongb 100 c0 = true /\ all_finished (run_sched 100 c0) = true.
+Proof. exact spurious_wake_run. Qed.
+
+Example C07_timeout_while_others_run :
+  let c1 := mkCfg sh0 (start_threads [[AWaitFor]; [AEnqueue 1 11%Z]])
+                  ([0; 0; 0; 0; 0; 1; 1; 1000] ++ repeat 0 10 ++ repeat 1 12) false in
+  map status (ths (run_sched 7 c1)) = [TParked true; TRun] /\
+  th_enabled (run_sched 7 c1) 1 = true /\
+  map status (ths (run_sched 8 c1)) = [TWoken; TRun] /\
+  In (CRes 0 false) (clog (shs (run_sched 100 c1))) /\
+  stopped_alongb 100 c1 = true /\ all_finished (run_sched 100 c1) = true.
+Proof. exact timeout_while_others_run. Qed.
